@@ -97,6 +97,8 @@ struct Member
     uint32_t vc[MAXT]; // vector clock
     void *wait_lock;
     void *fake_stack; // asan
+    int ws_count;     // work-sharing constructs entered in this region
+    int ws_cur;       // index of the work-share the member is in
 };
 
 static char *g_stack_pool = nullptr;
@@ -979,6 +981,19 @@ struct LockState
 };
 static std::map<void *, LockState> g_locks;
 
+// work-sharing loops that go through the runtime (schedule(dynamic|guided|runtime), or static via the API)
+struct WorkShare
+{
+    int kind; // 0 static, 1 dynamic, 2 guided
+    bool up;
+    unsigned long long next, end, incr, chunk; // incr is the magnitude; 'up' gives the direction
+    unsigned long long total_chunks_handed;
+    int singles;                    // GOMP_single_start arrivals
+    unsigned long long static_pos[MAXT]; // per member: next static chunk index
+};
+static std::vector<WorkShare> g_ws;
+static bool g_ws_preinit = false;
+
 static void run_region(void (*fn)(void *), void *data, int T, int requested)
 {
     g_region_idx++;
@@ -996,6 +1011,8 @@ static void run_region(void (*fn)(void *), void *data, int T, int requested)
     }
     g_used = 0;
     g_locks.clear();
+    if (!g_ws_preinit)
+        g_ws.clear();
     g_detect = g_cfg.detect_races && T > 1 && !g_asan_flavour;
     for (int i = 0; i < T; i++)
     {
@@ -1005,6 +1022,8 @@ static void run_region(void (*fn)(void *), void *data, int T, int requested)
         m->local = 0;
         m->wait_lock = nullptr;
         m->fake_stack = nullptr;
+        m->ws_count = g_ws_preinit ? 1 : 0;
+        m->ws_cur = 0;
         memset(m->vc, 0, sizeof(uint32_t) * T);
         m->vc[i] = 1;
     }
@@ -1103,6 +1122,8 @@ static void run_region(void (*fn)(void *), void *data, int T, int requested)
         }
     }
     g_in_region = false;
+    g_ws_preinit = false;
+    g_ws.clear();
     g_cur = nullptr;
     g_detect = false;
     g_countdown = INT64_MAX;
@@ -1494,3 +1515,341 @@ extern "C"
     }
 #endif
 }
+
+// ---------------------------------------------------------------------------------------------
+// Work-sharing constructs that call the runtime.  The repository's loops are all statically
+// scheduled inline by GCC and never reach these; they exist so that a benign edit (a
+// schedule(dynamic), a single, a critical ...) still links and is simulated with the right
+// happens-before edges instead of breaking the check.  `next` calls are scheduler decision
+// points (who gets the next chunk) and carry no happens-before edge.
+// ---------------------------------------------------------------------------------------------
+static Member g_orphan; // work-sharing outside any parallel region: a team of one
+
+static inline Member *ws_member() { return g_in_region && g_cur ? g_cur : &g_orphan; }
+static inline int ws_team() { return g_in_region && g_nest == 0 ? g_T : 1; }
+static inline int ws_index() { return g_in_region && g_nest == 0 && g_cur ? g_cur->idx : 0; }
+
+static WorkShare &ws_enter(int kind, bool up, unsigned long long start, unsigned long long end, unsigned long long incr, unsigned long long chunk)
+{
+    Member *m = ws_member();
+    if (!g_in_region)
+        g_ws.clear(), m->ws_count = 0;
+    int idx = m->ws_count++;
+    m->ws_cur = idx;
+    if ((int)g_ws.size() <= idx)
+    {
+        WorkShare w;
+        memset(&w, 0, sizeof w);
+        w.kind = kind;
+        w.up = up;
+        w.next = start;
+        w.end = end;
+        w.incr = incr ? incr : 1;
+        w.chunk = chunk ? chunk : 1;
+        g_ws.resize(idx + 1, w);
+        g_ws[idx] = w;
+    }
+    return g_ws[idx];
+}
+
+static unsigned long long ws_remaining(const WorkShare &w)
+{
+    if (w.up)
+        return w.next < w.end ? (w.end - w.next + w.incr - 1) / w.incr : 0;
+    return w.next > w.end ? (w.next - w.end + w.incr - 1) / w.incr : 0;
+}
+
+// hands out the next chunk [*s, *e) (in iteration-variable units) or returns false
+static bool ws_next(unsigned long long *s, unsigned long long *e)
+{
+    if (g_in_region && g_nest == 0 && g_T > 1)
+        step();
+    Member *m = ws_member();
+    if (m->ws_cur < 0 || m->ws_cur >= (int)g_ws.size())
+        return false;
+    WorkShare &w = g_ws[m->ws_cur];
+    int T = ws_team(), me = ws_index();
+    unsigned long long rem = ws_remaining(w);
+    if (w.kind == 0)
+    {
+        // static through the API: chunks of w.chunk dealt round-robin (chunk==0 at entry meant one block per member)
+        unsigned long long total_iters;
+        // recompute from the original bounds kept in static_pos bookkeeping: next never moves for static
+        total_iters = rem;
+        unsigned long long nchunks = (total_iters + w.chunk - 1) / w.chunk;
+        unsigned long long k = w.static_pos[me] * (unsigned long long)T + (unsigned long long)me;
+        if (k >= nchunks)
+            return false;
+        w.static_pos[me]++;
+        unsigned long long first = k * w.chunk, last = std::min(total_iters, first + w.chunk);
+        if (w.up)
+        {
+            *s = w.next + first * w.incr;
+            *e = w.next + last * w.incr;
+            if (last == total_iters)
+                *e = w.end;
+        }
+        else
+        {
+            *s = w.next - first * w.incr;
+            *e = last == total_iters ? w.end : w.next - last * w.incr;
+        }
+        return true;
+    }
+    if (rem == 0)
+        return false;
+    unsigned long long take = w.chunk;
+    if (w.kind == 2)
+        take = std::max<unsigned long long>(w.chunk, (rem + (unsigned long long)T - 1) / (unsigned long long)T);
+    if (take > rem)
+        take = rem;
+    *s = w.next;
+    if (w.up)
+    {
+        w.next += take * w.incr;
+        *e = take == rem ? w.end : w.next;
+        if (take == rem)
+            w.next = w.end;
+    }
+    else
+    {
+        w.next -= take * w.incr;
+        *e = take == rem ? w.end : w.next;
+        if (take == rem)
+            w.next = w.end;
+    }
+    w.total_chunks_handed++;
+    return true;
+}
+
+static bool ws_start_long(int kind, long start, long end, long incr, long chunk, long *is, long *ie)
+{
+    bool up = incr > 0;
+    unsigned long long mag = (unsigned long long)(up ? incr : -incr);
+    // long bounds mapped into the unsigned domain with an offset so that comparisons stay monotone
+    const unsigned long long OFF = 1ULL << 63;
+    if (kind == 0 && chunk == 0)
+    {
+        unsigned long long iters = up ? (end > start ? ((unsigned long long)(end - start) + mag - 1) / mag : 0) : (start > end ? ((unsigned long long)(start - end) + mag - 1) / mag : 0);
+        int T = ws_team();
+        chunk = (long)((iters + (unsigned long long)T - 1) / (unsigned long long)T);
+    }
+    ws_enter(kind, up, (unsigned long long)start + OFF, (unsigned long long)end + OFF, mag, (unsigned long long)chunk);
+    unsigned long long s, e;
+    if (!ws_next(&s, &e))
+        return false;
+    *is = (long)(s - OFF);
+    *ie = (long)(e - OFF);
+    return true;
+}
+static bool ws_next_long(long *is, long *ie)
+{
+    const unsigned long long OFF = 1ULL << 63;
+    unsigned long long s, e;
+    if (!ws_next(&s, &e))
+        return false;
+    *is = (long)(s - OFF);
+    *ie = (long)(e - OFF);
+    return true;
+}
+static bool ws_start_ull(int kind, bool up, unsigned long long start, unsigned long long end, unsigned long long incr, unsigned long long chunk, unsigned long long *is, unsigned long long *ie)
+{
+    unsigned long long mag = up ? incr : (unsigned long long)(-(long long)incr);
+    if (kind == 0 && chunk == 0)
+    {
+        unsigned long long iters = up ? (end > start ? (end - start + mag - 1) / mag : 0) : (start > end ? (start - end + mag - 1) / mag : 0);
+        int T = ws_team();
+        chunk = (iters + (unsigned long long)T - 1) / (unsigned long long)T;
+    }
+    ws_enter(kind, up, start, end, mag, chunk);
+    return ws_next(is, ie);
+}
+
+static void parallel_loop(void (*fn)(void *), void *data, unsigned num_threads, int kind, long start, long end, long incr, long chunk, unsigned flags)
+{
+    // combined parallel + loop: the work-share exists before the members start; they only call *_next
+    bool up = incr > 0;
+    const unsigned long long OFF = 1ULL << 63;
+    WorkShare w;
+    memset(&w, 0, sizeof w);
+    w.kind = kind;
+    w.up = up;
+    w.next = (unsigned long long)start + OFF;
+    w.end = (unsigned long long)end + OFF;
+    w.incr = (unsigned long long)(up ? incr : -incr);
+    w.chunk = chunk > 0 ? (unsigned long long)chunk : 1;
+    g_ws.clear();
+    g_ws.push_back(w);
+    g_ws_preinit = true;
+    g_orphan.ws_cur = 0;
+    g_orphan.ws_count = 1;
+    GOMP_parallel(fn, data, num_threads, flags);
+    g_ws_preinit = false;
+}
+
+extern "C"
+{
+#define LOOP_FAMILY(name, kind)                                                                                                                       \
+    bool GOMP_loop_##name##_start(long start, long end, long incr, long chunk, long *is, long *ie) { return ws_start_long(kind, start, end, incr, chunk, is, ie); } \
+    bool GOMP_loop_##name##_next(long *is, long *ie) { return ws_next_long(is, ie); }                                                                \
+    bool GOMP_loop_ull_##name##_start(bool up, unsigned long long start, unsigned long long end, unsigned long long incr, unsigned long long chunk, unsigned long long *is, unsigned long long *ie) \
+    {                                                                                                                                                 \
+        return ws_start_ull(kind, up, start, end, incr, chunk, is, ie);                                                                               \
+    }                                                                                                                                                 \
+    bool GOMP_loop_ull_##name##_next(unsigned long long *is, unsigned long long *ie) { return ws_next(is, ie); }                                      \
+    void GOMP_parallel_loop_##name(void (*fn)(void *), void *data, unsigned nt, long start, long end, long incr, long chunk, unsigned flags)          \
+    {                                                                                                                                                 \
+        parallel_loop(fn, data, nt, kind, start, end, incr, chunk, flags);                                                                            \
+    }
+    LOOP_FAMILY(static, 0)
+    LOOP_FAMILY(dynamic, 1)
+    LOOP_FAMILY(guided, 2)
+    LOOP_FAMILY(nonmonotonic_dynamic, 1)
+    LOOP_FAMILY(nonmonotonic_guided, 2)
+#define RUNTIME_FAMILY(name)                                                                                                                          \
+    bool GOMP_loop_##name##_start(long start, long end, long incr, long *is, long *ie) { return ws_start_long(1, start, end, incr, 1, is, ie); }      \
+    bool GOMP_loop_##name##_next(long *is, long *ie) { return ws_next_long(is, ie); }                                                                 \
+    bool GOMP_loop_ull_##name##_start(bool up, unsigned long long start, unsigned long long end, unsigned long long incr, unsigned long long *is, unsigned long long *ie) \
+    {                                                                                                                                                 \
+        return ws_start_ull(1, up, start, end, incr, 1, is, ie);                                                                                      \
+    }                                                                                                                                                 \
+    bool GOMP_loop_ull_##name##_next(unsigned long long *is, unsigned long long *ie) { return ws_next(is, ie); }                                      \
+    void GOMP_parallel_loop_##name(void (*fn)(void *), void *data, unsigned nt, long start, long end, long incr, unsigned flags)                      \
+    {                                                                                                                                                 \
+        parallel_loop(fn, data, nt, 1, start, end, incr, 1, flags);                                                                                   \
+    }
+    // schedule(runtime): OMP_SCHEDULE is not set in the simulated machine -> implementation defined; dynamic,1 is the most adversarial legal choice
+    RUNTIME_FAMILY(runtime)
+    RUNTIME_FAMILY(nonmonotonic_runtime)
+    RUNTIME_FAMILY(maybe_nonmonotonic_runtime)
+
+    void GOMP_loop_end(void) { GOMP_barrier(); }
+    void GOMP_loop_end_nowait(void) {}
+    bool GOMP_loop_end_cancel(void)
+    {
+        GOMP_barrier();
+        return false;
+    }
+    bool GOMP_single_start(void)
+    {
+        if (!g_in_region || g_nest || g_T == 1)
+            return true;
+        step();
+        WorkShare &w = ws_enter(1, true, 0, 0, 1, 1);
+        return w.singles++ == 0;
+    }
+    bool GOMP_cancellation_point(int) { return false; }
+    bool GOMP_cancel(int, bool) { return false; }
+}
+
+// ---------------------------------------------------------------------------------------------
+// __tsan_atomic*: emitted by -fsanitize=thread for std::atomic / #pragma omp atomic.  The operation
+// itself is performed directly (one OS thread); every atomic access is a preemption point and an
+// acquire+release on a per-address sync object (sequentially consistent, the strongest and for a
+// race detector the most conservative reading: never invents a race).
+// ---------------------------------------------------------------------------------------------
+static void atomic_sync(const volatile void *a)
+{
+    if (!g_in_region || g_T == 1)
+        return;
+    step();
+    LockState &L = g_locks[(void *)a];
+    for (int k = 0; k < g_T; k++)
+    {
+        uint32_t v = std::max(g_cur->vc[k], L.vc[k]);
+        g_cur->vc[k] = v;
+        L.vc[k] = v;
+    }
+    g_cur->vc[g_cur->idx]++;
+}
+typedef unsigned __int128 a128;
+#define TSAN_ATOMIC(bits, T)                                                                                             \
+    extern "C" T __tsan_atomic##bits##_load(const volatile T *a, int)                                                   \
+    {                                                                                                                    \
+        atomic_sync(a);                                                                                                  \
+        return *a;                                                                                                       \
+    }                                                                                                                    \
+    extern "C" void __tsan_atomic##bits##_store(volatile T *a, T v, int)                                                \
+    {                                                                                                                    \
+        atomic_sync(a);                                                                                                  \
+        *a = v;                                                                                                          \
+    }                                                                                                                    \
+    extern "C" T __tsan_atomic##bits##_exchange(volatile T *a, T v, int)                                                \
+    {                                                                                                                    \
+        atomic_sync(a);                                                                                                  \
+        T o = *a;                                                                                                        \
+        *a = v;                                                                                                          \
+        return o;                                                                                                        \
+    }                                                                                                                    \
+    extern "C" T __tsan_atomic##bits##_fetch_add(volatile T *a, T v, int)                                               \
+    {                                                                                                                    \
+        atomic_sync(a);                                                                                                  \
+        T o = *a;                                                                                                        \
+        *a = (T)(o + v);                                                                                                 \
+        return o;                                                                                                        \
+    }                                                                                                                    \
+    extern "C" T __tsan_atomic##bits##_fetch_sub(volatile T *a, T v, int)                                               \
+    {                                                                                                                    \
+        atomic_sync(a);                                                                                                  \
+        T o = *a;                                                                                                        \
+        *a = (T)(o - v);                                                                                                 \
+        return o;                                                                                                        \
+    }                                                                                                                    \
+    extern "C" T __tsan_atomic##bits##_fetch_and(volatile T *a, T v, int)                                               \
+    {                                                                                                                    \
+        atomic_sync(a);                                                                                                  \
+        T o = *a;                                                                                                        \
+        *a = (T)(o & v);                                                                                                 \
+        return o;                                                                                                        \
+    }                                                                                                                    \
+    extern "C" T __tsan_atomic##bits##_fetch_or(volatile T *a, T v, int)                                                \
+    {                                                                                                                    \
+        atomic_sync(a);                                                                                                  \
+        T o = *a;                                                                                                        \
+        *a = (T)(o | v);                                                                                                 \
+        return o;                                                                                                        \
+    }                                                                                                                    \
+    extern "C" T __tsan_atomic##bits##_fetch_xor(volatile T *a, T v, int)                                               \
+    {                                                                                                                    \
+        atomic_sync(a);                                                                                                  \
+        T o = *a;                                                                                                        \
+        *a = (T)(o ^ v);                                                                                                 \
+        return o;                                                                                                        \
+    }                                                                                                                    \
+    extern "C" T __tsan_atomic##bits##_fetch_nand(volatile T *a, T v, int)                                              \
+    {                                                                                                                    \
+        atomic_sync(a);                                                                                                  \
+        T o = *a;                                                                                                        \
+        *a = (T) ~(o & v);                                                                                               \
+        return o;                                                                                                        \
+    }                                                                                                                    \
+    extern "C" int __tsan_atomic##bits##_compare_exchange_strong(volatile T *a, T *c, T v, int, int)                    \
+    {                                                                                                                    \
+        atomic_sync(a);                                                                                                  \
+        if (*a == *c)                                                                                                    \
+        {                                                                                                                \
+            *a = v;                                                                                                      \
+            return 1;                                                                                                    \
+        }                                                                                                                \
+        *c = *a;                                                                                                         \
+        return 0;                                                                                                        \
+    }                                                                                                                    \
+    extern "C" int __tsan_atomic##bits##_compare_exchange_weak(volatile T *a, T *c, T v, int mo, int fmo)               \
+    {                                                                                                                    \
+        return __tsan_atomic##bits##_compare_exchange_strong(a, c, v, mo, fmo);                                          \
+    }                                                                                                                    \
+    extern "C" T __tsan_atomic##bits##_compare_exchange_val(volatile T *a, T c, T v, int, int)                          \
+    {                                                                                                                    \
+        atomic_sync(a);                                                                                                  \
+        T o = *a;                                                                                                        \
+        if (o == c)                                                                                                      \
+            *a = v;                                                                                                      \
+        return o;                                                                                                        \
+    }
+TSAN_ATOMIC(8, unsigned char)
+TSAN_ATOMIC(16, unsigned short)
+TSAN_ATOMIC(32, unsigned int)
+TSAN_ATOMIC(64, unsigned long)
+TSAN_ATOMIC(128, a128)
+extern "C" void __tsan_atomic_thread_fence(int) { atomic_sync(&g_default_critical); }
+extern "C" void __tsan_atomic_signal_fence(int) {}
